@@ -77,7 +77,7 @@ structure Kernel where
   rebind : List Bind
   /-- cells of the rewired matrix that `if not (R[a,d] or R[c,b] …)` requires to be empty -/
   guard : List Cell
-  /-- cells of the mask matrix in the same test (`randomize_graph_partial_und`) -/
+  /-- cells of the mask matrix in the same test (`randomize_graph_partial_und`: both orientations of (a,d), (c,b)) -/
   maskGuard : List Cell
   /-- signed routines: `sign(R x) == sign(R y)` (true) / `!=` (false) conjuncts -/
   signGuard : List (Cell × Cell × Bool)
@@ -205,6 +205,10 @@ def expected : Kind → SymState
 def stdBinds : List Bind := [⟨a, .i, .e1⟩, ⟨b, .j, .e1⟩, ⟨c, .i, .e2⟩, ⟨d, .j, .e2⟩]
 def stdDistinct : List (Sym × Sym) := [(a, c), (a, d), (b, c), (b, d)]
 def stdGuard : List Cell := [(a, d), (c, b)]
+/-- the mask is tested in both orientations of the two new edges (`randomize_graph_partial_und`) -/
+def stdMaskGuard : List Cell := [(a, d), (c, b), (d, a), (b, c)]
+/-- equality of cell lists as sets -/
+def cellsEq (xs ys : List Cell) : Bool := xs.all (fun x => ys.contains x) && ys.all (fun y => xs.contains y)
 def stdSignGuard : List (Cell × Cell × Bool) :=
   [((a, b), (c, d), true), ((a, d), (c, b), true), ((a, b), (a, d), false)]
 def stdLatLhs : List (Cell × Cell) := [((a, b), (a, b)), ((c, d), (c, d))]
@@ -232,7 +236,7 @@ def kernelOk (ker : Kernel) : Bool :=
       edgesOk ker && ker.incr == 1
   | .und =>
       ker.binds == stdBinds && ker.distinct == stdDistinct && flipOk ker &&
-      ker.guard == stdGuard && (ker.maskGuard == [] || ker.maskGuard == stdGuard) && ker.signGuard == [] &&
+      ker.guard == stdGuard && (ker.maskGuard == [] || cellsEq ker.maskGuard stdMaskGuard) && ker.signGuard == [] &&
       latOkShape ker && edgesOk ker && ker.incr == 1
   | .dirSigned | .undSigned =>
       ker.binds == [] && ker.flip == [] && ker.rebind == [] && ker.guard == [] && ker.maskGuard == [] &&
